@@ -182,6 +182,7 @@ def h_forest(ctx, nsw, par, toggle, order='asc'):
       if x == a: ports.append((px, b'\x02\x00\x00\x00' + bytes([px, a])))
       if y == a: ports.append((py, b'\x02\x00\x00\x00' + bytes([py, a])))
     c = Con(dpids[a], ports); nexus._connections[dpids[a]] = c; cons[a] = c
+  disc.addListenerByName('LinkEvent', ST._handle_LinkEvent)   # what spanning_tree.launch wires up
   ndir = 2 * len(cables)
   mask = 0
   for i in range(ndir):
@@ -200,9 +201,11 @@ def h_forest(ctx, nsw, par, toggle, order='asc'):
       was, now_ = present(cur[0], idx), present(m, idx)
       if was == now_: continue
       L = directed(idx)
-      if now_: disc.adjacency[L] = clock.now
-      else: disc.adjacency.pop(L, None)
-      ST._handle_LinkEvent(D.LinkEvent(bool(now_), L))
+      if now_:
+        disc.adjacency[L] = clock.now
+        disc.raiseEventNoErrors(D.LinkEvent, True, L)         # as Discovery._handle_openflow_PacketIn does for a new link
+      else:
+        disc._delete_links([L])                                # the real withdrawal path (link timeout / ConnectionDown)
     cur[0] = m
   def state():
     flood = {}
